@@ -1,7 +1,7 @@
 import random,collections
 from gen import *
-rng=random.Random(5); cases=[]
-for _ in range(60000):
+rng=random.Random(77); cases=[]
+for _ in range(400000):
     q1=rng.randint(1,34); q2=rng.randint(1,34); c1=coeff(rng,q1); c2=coeff(rng,q2)
     q4=ndig(c1*c2)
     e4=rng.randint(6080,6200); e1=rng.randint(max(QMIN,e4-QMAX),min(QMAX,e4-QMIN)); e2=e4-e1
